@@ -1797,19 +1797,23 @@ impl<'a, R: FileManager> FrontendCtx<'a, R> {
         }
     }
 
+    // `file` is the module the name is resolved in; `written_in` locates the place the name is
+    // written (`import("./m").NS.X` is written in the importing file and resolved in `m`)
     fn get_adressed_qualified_type_from_entity_name(
         &mut self,
         q: &TsEntityName,
         file: BffFileName,
+        written_in: &Anchor,
     ) -> Res<AddressedQualifiedType> {
         match q {
             TsEntityName::TsQualifiedName(ts_qualified_name) => {
                 let left_part = self.get_adressed_qualified_type_from_entity_name(
                     &ts_qualified_name.left,
                     file.clone(),
+                    written_in,
                 )?;
                 let anchor = Anchor {
-                    f: file.clone(),
+                    f: written_in.f.clone(),
                     s: ts_qualified_name.span(),
                 };
                 match left_part {
@@ -1832,7 +1836,7 @@ impl<'a, R: FileManager> FrontendCtx<'a, R> {
                     Visibility::Local,
                 );
                 let anchor = Anchor {
-                    f: file.clone(),
+                    f: written_in.f.clone(),
                     s: ident.span,
                 };
                 let type_addressed = self.get_addressed_qualified_type(&addr, &anchor)?;
@@ -1899,6 +1903,7 @@ impl<'a, R: FileManager> FrontendCtx<'a, R> {
                 let qualified_type = self.get_adressed_qualified_type_from_entity_name(
                     &ts_qualified_name.left,
                     file.clone(),
+                    anchor,
                 )?;
 
                 let new_addr = match qualified_type {
@@ -2589,9 +2594,10 @@ impl<'a, R: FileManager> FrontendCtx<'a, R> {
         &mut self,
         q: &TsEntityName,
         file: BffFileName,
+        written_in: &Anchor,
     ) -> Res<AddressedQualifiedValue> {
         let anchor = Anchor {
-            f: file.clone(),
+            f: written_in.f.clone(),
             s: q.span(),
         };
         match q {
@@ -2599,6 +2605,7 @@ impl<'a, R: FileManager> FrontendCtx<'a, R> {
                 let left_part = self.get_addressed_qualified_value_from_entity_name(
                     &ts_qualified_name.left,
                     file.clone(),
+                    written_in,
                 )?;
                 if let AddressedQualifiedValue::StarOfFile(other_file) = left_part {
                     let new_addr = ModuleItemAddress {
@@ -2686,6 +2693,7 @@ impl<'a, R: FileManager> FrontendCtx<'a, R> {
         let left_value = self.get_addressed_qualified_value_from_entity_name(
             &ts_qualified_name.left,
             file.clone(),
+            anchor,
         )?;
 
         self.member_access_qualified_value(&left_value, &ts_qualified_name.right.sym, anchor)
